@@ -4,6 +4,7 @@ import WV.Gen.Consts
 import WV.Gen.T_Input
 import WV.Gen.T_Code
 import WV.Gen.T_Allocator
+import WV.Gen.Flags
 
 /-!
 C19 — codes are well-formed with the promised entropy; code entry is consistent.
@@ -111,6 +112,7 @@ inductive Err where
   | assertion | typeError | attributeError | keyError
   | unknownRegex       -- the translator found a regex this model has no semantics for
   | alreadyInputNameplate   -- `_rlcompleter`: the line no longer carries the committed nameplate
+  | unknownGuard       -- the translator found a guard in xfer_util this model has no semantics for
   deriving DecidableEq, Repr
 
 def Err.name : Err → String
@@ -123,6 +125,7 @@ def Err.name : Err → String
   | .attributeError => "AttributeError" | .keyError => "KeyError"
   | .unknownRegex => "unknown-regex"
   | .alreadyInputNameplate => "AlreadyInputNameplateError"
+  | .unknownGuard => "unknown-guard"
 
 /-- the two nameplate regexes this model knows -/
 inductive NpRegex where
@@ -411,6 +414,8 @@ ndranges                 -> lo-hi,lo-hi,…
 alloc <n> | set <str> | input | connected | lost | rxalloc <str> <bytes> | gotnp <strs> | gotwl
 h refresh | h npc <str> | h choosenp <str> | h wc <str> | h choosewords <str> | h wwa
                          -> <result> | <cmds emitted by this call> | latch code input alloc
+xfer <send|receive> <none | other | s <str>>   (fresh wormhole, connected, then xfer_util's allocate_code()/set_code(code))
+                         -> <result> | <cmds> | latch code input alloc
 rl tab <str> | rl finish <str>      (CodeInputter: TAB = completer(text, 0…), Return = finish(text))
                          -> <matches in order | ok | Error> | <cmds> | committed=<str|none> used=<bool> | latch code input alloc
 ```
@@ -611,6 +616,38 @@ def rlRun (isD : Nat → Bool) : Rl → List RlEv → Rl
   | r, [] => r
   | r, e :: es => rlRun isD (rlStep isD r e) es
 
+/-! ## `xfer_util.send` / `xfer_util.receive` — the convenience entry points (behind `wormhole ssh`)
+
+`wh = wormhole.create(…)` (a fresh client; `create` ends with `start()`, so with a live connection the
+Allocator has heard `connected`), then
+
+    if code is None:  wh.allocate_code();  code = yield wh.get_code()
+    else:             wh.set_code(code)
+
+The `code` argument is whatever the caller hands in: `None`, a `str`, or something else.  That the
+test is `code is None` (and not truthiness: `""` and `0` are falsy) is read from the source by the
+translator (`Flags.xfer_allocates_only_for_code_is_none`).
+-/
+
+inductive CodeArg where
+  | none                 -- `None`
+  | str (c : Str)        -- a `str`, possibly empty
+  | other                -- anything else (`0`, `b""`, `False`, …): `' ' in code` raises TypeError
+  deriving DecidableEq, Repr
+
+/-- the state `wormhole.create` returns with the connection up -/
+def xferCreated (isD : Nat → Bool) : St := (step isD init .connected).1
+
+/-- the code-start call of `xfer_util.send/receive` on a wormhole in state `s` -/
+def xferStartOn (isD : Nat → Bool) (s : St) (code : CodeArg) : R :=
+  if !Flags.xfer_allocates_only_for_code_is_none then ({ s with ret := none }, some .unknownGuard) else
+  match code with
+  | .none => step isD s (.allocate 2)          -- `allocate_code()`: code_length defaults to 2
+  | .str c => step isD s (.setCode c)
+  | .other => ({ s with ret := none }, some .typeError)
+
+def xferStart (isD : Nat → Bool) (code : CodeArg) : R := xferStartOn isD (xferCreated isD) code
+
 def showRl (before : Nat) (res : String) (r : Rl) : String :=
   let cmds := (r.s.out.drop before).map showCmd
   let com := match r.committed with | none => "none" | some c => showStr c
@@ -623,6 +660,18 @@ def stepLine (r : Rl) (line : String) : Rl × String :=
   let s := r.s
   match tokens line with
   | ["reset"] => (rlInit, "ok")
+  | "xfer" :: _kind :: rest =>
+    let arg : Option CodeArg :=
+      match rest with
+      | ["none"] => some .none
+      | ["other"] => some .other
+      | ["s", h] => (readStr? h).map .str
+      | _ => none
+    match arg with
+    | some c =>
+      let q := xferStart isNd c
+      ({ rlInit with s := q.1 }, showStep 0 q false)
+    | none => (r, "bad-op")
   | ["rl", "tab", h] =>
     match readStr? h with
     | some t =>
